@@ -116,4 +116,4 @@ def replay(ctx, case):
 def probes(ctx):
     from vpbt import gfi_probes
 
-    gfi_probes.run_probes(ctx, ['masked_iterate_final_false_step'])
+    gfi_probes.run_probes(ctx, ['masked_iterate_final_false_step', 'assess_empty_sample'])
